@@ -215,6 +215,12 @@ def run(rep, tier, seed, keep=False):
                    g.call('generateMany', g.c(1), g.mcall(g.lst(g.bn('+', X, g.c(1)), g.bn('+', X, g.c(2))), 'where', g.bn('<', X, g.c(5))), depthFirst=g.c(True)),
                    g.call('generateMany', g.c(1), g.mcall(g.lst(g.bn('+', X, g.c(1)), g.bn('+', X, g.c(2))), 'where', g.bn('<', X, g.c(5))), decycle=g.c(True)),
                    g.call('generateMany', g.c(1), g.mcall(g.lst(g.bn('+', X, g.c(1))), 'where', g.bn('<', X, g.c(4))), g.bn('*', X, g.c(10))),
+                   # equal dicts written in different key orders are one value wherever values are hashed
+                   g.mcall(g.mcall(g.lst(g.mp((g.c('a'), g.c(1)), (g.c('b'), g.c(2))), g.mp((g.c('b'), g.c(2)), (g.c('a'), g.c(1)))), 'distinct'), 'len'),
+                   g.mcall(g.mcall(g.lst(g.mp((g.c('a'), g.c(1)), (g.c('b'), g.c(2))), g.mp((g.c('b'), g.c(2)), (g.c('a'), g.c(1)))), 'toSet'), 'len'),
+                   g.mcall(g.mcall(g.lst(g.mp((g.c('a'), g.c(1)), (g.c('b'), g.c(2))), g.mp((g.c('b'), g.c(2)), (g.c('a'), g.c(1))), g.mp((g.c('a'), g.c(1)))), 'groupBy', X), 'len'),
+                   g.bn('in', g.mp((g.c('b'), g.c(2)), (g.c('a'), g.c(1))), g.mcall(g.lst(g.mp((g.c('a'), g.c(1)), (g.c('b'), g.c(2)))), 'toSet')),
+                   g.mcall(g.mcall(g.lst(g.mcall(g.mp((g.c('a'), g.c(1))), 'set', g.c('b'), g.c(2)), g.mcall(g.mp((g.c('b'), g.c(2))), 'set', g.c('a'), g.c(1))), 'distinct'), 'len'),
                    # flatten descends into every nested collection, lists and lazily produced ones alike
                    g.mcall(g.lst(g.c(0), g.call('range', g.c(1), g.c(3)), g.lst(g.lst(g.c(4)), g.c(5))), 'flatten'),
                    g.mcall(g.lst(g.mcall(X, 'select', X), g.lst(g.c(9))), 'flatten'),
